@@ -271,6 +271,7 @@ func runGenerated(c *engine.Ctx) {
 		runGeneratedBound(c, 3, 5, 0, "")
 		runGeneratedBound(c, 4, 3, 4, "")        // only the schemas with exactly 4 nodes
 		runGeneratedBound(c, 3, 4, 0, "shared")  // names shared between levels
+		runGeneratedBound(c, 4, 1, 4, "shared")  // ... and the 4-node schemas with trees of <= 1 node
 		runGeneratedBound(c, 3, 4, 0, "typedef") // defaults that come from a typedef
 		return
 	}
